@@ -141,9 +141,15 @@ CONTRACTS = WC.owned(PROP) + [
                  ("delivered-in-phase-order-from-the-buffer",
                   "forall(lambda j: implies(0 <= j and j < len(delivered), delivered[j] == "
                   "ite(old(self._next_rx_phase) + j == phase, plaintext, old(self._rx_phases)[old(self._next_rx_phase) + j])))"),
+                 ("delivered-came-from-the-buffer-or-are-this-message",
+                  "forall(lambda j: implies(0 <= j and j < len(delivered), old(self._next_rx_phase) + j == phase or "
+                  "old(self._next_rx_phase) + j in old(self._rx_phases)))"),
                  ("buffer-keeps-the-rest",
                   "forall(lambda k: (k in self._rx_phases) == ((k in old(self._rx_phases) or k == phase) and "
                   "not (old(self._next_rx_phase) <= k and k < self._next_rx_phase)))"),
+                 ("buffered-bodies-unmodified",
+                  "forall(lambda k: implies(k in self._rx_phases, self._rx_phases[k] == "
+                  "ite(k == phase, plaintext, old(self._rx_phases)[k])))"),
                  ("next-phase-not-buffered", "self._next_rx_phase not in self._rx_phases")],
              modifies=["_rx_phases", "_next_rx_phase"],
              loops={0: {"header": "self._next_rx_phase in self._rx_phases",
@@ -157,6 +163,8 @@ CONTRACTS = WC.owned(PROP) + [
                             "at_entry(self._rx_phases)[at_entry(self._next_rx_phase) + j]))",
                             "forall(lambda k: (k in self._rx_phases) == (k in at_entry(self._rx_phases) and "
                             "not (at_entry(self._next_rx_phase) <= k and k < self._next_rx_phase)))",
+                            "forall(lambda j: implies(0 <= j and j < len(delivered), "
+                            "at_entry(self._next_rx_phase) + j in at_entry(self._rx_phases)))",
                             "forall(lambda k: implies(k in self._rx_phases, self._rx_phases[k] == at_entry(self._rx_phases)[k]))",
                         ]}},
              note="reorder buffer: W.received is called for phase n only when n == _next_rx_phase, which then moves on; "
